@@ -96,7 +96,7 @@ Definition run_case (c : case) : bool :=
         (with_reenc (uivk_encode net) (uivk_decode (orc_of t) net i)) o
   | CAddr t k j r os => list_eqb addr_res_eqb (model_addrs (orc_of t) k j r) os
   | CFind t k j r os => list_eqb find_res_eqb (model_finds (orc_of t) k j r) os
-  | CCrypto _ _ => true
+  | CCrypto _ ok => ok      (* the model of an observed clause is that it holds *)
   | CLegacy l => lrun l
   | CGap g => grun g
   end.
@@ -243,7 +243,7 @@ Definition prop_case (c : case) : bool :=
                 else false
             | Err DiversifierSpaceExhausted =>
                 (* only when every index up to the end of the space was skipped *)
-                if DIVERSIFIER_SPACE - j <? 4096
+                if DIVERSIFIER_SPACE - j <=? 4096
                 then all_skipped (orc_of t) i r j (N.to_nat (DIVERSIFIER_SPACE - j))
                 else false
             | Err e =>
